@@ -1,9 +1,9 @@
-(* Obligation C20/lognormal_pdf_closed_form.  Statement as printed by Coq from Inferno.C20.DistProofs; proof by reference.
+(* Obligation C20/lognormal_pdf_closed_form.  Statement as printed by Coq from Inferno.C20.DistLogNormal; proof by reference.
    This file contains nothing else, so the statement cannot be weakened quietly. *)
 From Coq Require Import Reals List ZArith Bool.
 From Coquelicot Require Import Coquelicot.
 From Flocq Require Import Core.Raux.
-From Inferno Require Import Base.Num Base.NumR C20.Model C20.Spec C20.DistProofs.
+From Inferno Require Import Base.Num Base.NumR Gen.Distributions C20.Model C20.Spec C20.DistLogNormal.
 Import ListNotations.
 Open Scope R_scope.
 Theorem lognormal_pdf_closed_form : forall (tau x : R) (loc : T RN) (scale : R),
@@ -15,5 +15,5 @@ Theorem lognormal_pdf_closed_form : forall (tau x : R) (loc : T RN) (scale : R),
   lognormal_pdf RN tau x loc scale =
   1 / (x * scale * R_sqrt.sqrt tau) *
   Rtrigo_def.exp (- / 2 * ((Rpower.ln x - loc) / scale) ^ 2).
-Proof. exact (@Inferno.C20.DistProofs.lognormal_pdf_closed_form). Qed.
+Proof. exact (@Inferno.C20.DistLogNormal.lognormal_pdf_closed_form). Qed.
 Print Assumptions lognormal_pdf_closed_form.
